@@ -35,6 +35,15 @@ var (
 
 func thorough() bool { return envTier == "thorough" }
 
+// repoRoot is the go-univers tree the harness is built against (the driver
+// passes VERIF_REPO; the registered checks always use /repo).
+func repoRoot() string {
+	if p := os.Getenv("VERIF_REPO"); p != "" {
+		return p
+	}
+	return "/repo"
+}
+
 func TestMain(m *testing.M) {
 	if p := os.Getenv("VERIF_KNOWN"); p != "" {
 		if err := known.Load(p); err != nil {
